@@ -45,7 +45,7 @@ def verus_version():
         return "unknown"
 
 
-def run(path, rlimit=None, multiple_errors=20, timeout=900, use_cache=True, extra=None):
+def run(path, rlimit=None, multiple_errors=20, timeout=900, use_cache=True, extra=None, rustc_extra=None):
     os.makedirs(CACHE, exist_ok=True)
     text = open(path).read()
     args = ["verus", path, "--output-json", "--time", "--triggers-mode", "silent",
@@ -54,7 +54,7 @@ def run(path, rlimit=None, multiple_errors=20, timeout=900, use_cache=True, extr
         args += ["--rlimit", str(rlimit)]
     if extra:
         args += extra
-    args += ["--", "--error-format=json"]
+    args += ["--", "--error-format=json"] + list(rustc_extra or [])
     key = hashlib.sha256((text + "\0" + " ".join(args[2:]) + "\0" + verus_version()).encode()).hexdigest()
     cpath = os.path.join(CACHE, key + ".json")
     if use_cache and os.path.exists(cpath):
